@@ -15,7 +15,7 @@ Fixpoint pstr_eqb (a b : pstr) : bool :=
   | _, _ => false
   end.
 
-Fixpoint startswith (s p : pstr) : bool :=
+Fixpoint startswith (s p : pstr) {struct p} : bool :=
   match p, s with
   | [], _ => true
   | y :: p', x :: s' => N.eqb x y && startswith s' p'
